@@ -173,7 +173,8 @@ class JSONCodec(AbstractMetadataCodec):
 
         # Assign default values
         if isinstance(result, dict):
-            return dict(self.defaults, **result)
+            # Deep copy so that mutable default values are not shared between rows
+            return dict(copy.deepcopy(self.defaults), **result)
         else:
             return result
 
